@@ -147,3 +147,48 @@ def run_nodecmp(c, ctx, parse_text):
         if not close(d.get('d'), c['x'], 1e-12) or not close(d.get('b'), float(ytxt), 1e-12):
             devs.append(dev('node-vs-node:comparison-changed-its-operands', dict(text=text, data={k: d.get(k) for k in 'db'})))
     return outcome(classes=classes, nontrivial=True, fp='nodecmp ' + text, dev=devs, monitors=mon, sample=dict(text=text, expected=truth, observed=obs))
+
+
+# ------------------------------------------------------------------------------------------------------------------
+# dimensionless results of numerical expressions and the unit the node requests (closed form)
+
+def gen_dimless(rng):
+    return dict(t='dimless', a=rng.choice([20, 5, 250]), ua=rng.choice(['cm', 'mm', 'm']), b=rng.choice([1, 4, 0.5]), ub=rng.choice(['m', 'km', 'cm']),
+                want=rng.choice(['%', 'ppth', 'none', 'custom-dozen', 'm-must-fail', 's-must-fail', 'literal-into-m-must-fail']))
+
+
+def run_dimless(c, ctx, parse_text):
+    F = dict(sum(UNITS.values(), []))
+    ratio = (c['a'] * F[c['ua']]) / (c['b'] * F[c['ub']])
+    L = ['a float = %r %s' % (float(c['a']), c['ua']), 'b float = %r %s' % (float(c['b']), c['ub'])]
+    want = c['want']
+    exp = None
+    if want == '%':
+        L.append('r float = ("{?a} / {?b}") %'); exp = ratio * 100
+    elif want == 'ppth':
+        L.append('r float = ("{?a} / {?b}") ppth'); exp = ratio * 1000
+    elif want == 'none':
+        L.append('r float = ("{?a} / {?b}")'); exp = ratio
+    elif want == 'custom-dozen':
+        L = ['$unit dozen = 12'] + L + ['r float = ("{?a} / {?b} * 36") [dozen]']; exp = ratio * 36 / 12
+    elif want == 'm-must-fail':
+        L.append('r float = ("{?a} / {?b}") m')
+    elif want == 's-must-fail':
+        L.append('r float = ("{?a} / {?b} * 3") s')
+    else:
+        L.append('r float = ("2 * 3") m')
+    text = '\n'.join(L) + '\n'
+    classes = ['dimensionless-result', 'dimensionless-result:' + want]
+    devs, mon = [], dict(dimensionless_result_programs=1)
+    kind, res = parse_text(ctx, text)
+    obs = None
+    if exp is None:
+        if kind == 'ok':
+            devs.append(dev('dimensionless-result:accepted-into-a-dimensional-unit', dict(text=text, data=repr(res.data())[:150])))
+    elif kind != 'ok':
+        devs.append(dev('dimensionless-result:valid-program-rejected', dict(text=text, exc=repr(res)[:160])))
+    else:
+        obs = res.data().get('r')
+        if obs is None or not close(obs, exp, 1e-9):
+            devs.append(dev('dimensionless-result:not-expressed-in-the-requested-unit', dict(text=text, observed=obs, expected=exp)))
+    return outcome(classes=classes, nontrivial=True, fp='dimless ' + text, dev=devs, monitors=mon, sample=dict(text=text, expected=exp if exp is not None else 'rejected', observed=obs))
